@@ -18,6 +18,9 @@ TIERS = {
 
 def run_harness(prop, alpha, tier, seed, scale=1.0, extra='', no_files=False, n=None, versions=None, timeout=3000,
                 rnd_versions=None):
+    if os.environ.get('PV_SKIP_BOUNDED'):
+        return dict(evaluations=0, distinct_nontrivial=0, failures=[], samples=[], wall_s=0.0, rule='skipped (PV_SKIP_BOUNDED)',
+                    scope=dict(exhaustive_programs=0))
     t = dict(TIERS[tier])
     if n is not None:
         t['n'] = n
@@ -55,6 +58,8 @@ def bounded_obligations(report, prop, names, res, functions=()):
     for f in res['failures']:
         failed.setdefault(f['ob'], []).append(f)
     t = res['wall_s'] / max(1, len(names))
+    if os.environ.get('PV_SKIP_BOUNDED'):
+        return res
     for name in names:
         if name not in failed:
             report.add(Ob(name, 'B', 'runtime-contract', DISCHARGED, t, functions=functions,
@@ -80,6 +85,9 @@ def bounded_obligations(report, prop, names, res, functions=()):
 
 def run_script(module, args, timeout=3000):
     """Run a harness script (python -m <module> ... --out <tmp>) under the test-suite interpreter -> result dict."""
+    if os.environ.get('PV_SKIP_BOUNDED'):
+        return dict(evaluations=0, distinct_nontrivial=0, failures=[], samples=[], wall_s=0.0, rule='skipped (PV_SKIP_BOUNDED)',
+                    scope={}, per_version=[])
     fd, out = tempfile.mkstemp(prefix='pv_', suffix='.json')
     os.close(fd)
     env = dict(os.environ)
